@@ -224,6 +224,33 @@ def inst_auto_one(cfix, itemsize, via):
                     dict(fixed=cfix, itemsize=itemsize, via=via), unit="normalize_chunks+auto_chunks", cost=4)
 
 
+def inst_auto_empty(fixed):
+    """('auto', fixed) on a shape whose fixed axis has length zero (an empty array: an appendable dataset without records,
+    np.empty((n, 0))): a valid layout comes back -- the zero-length axis carries (0,), the auto axis sums to its length"""
+    def body(E):
+        lim = E.int("limit", 1)
+        w = W(E)
+        n0 = E.int("n0", 1)
+        out = w.fn(CU, "normalize_chunks")(("auto", fixed), (n0, 0), limit=lim, dtype=np.dtype("f8"))
+        E.observe("out", [list(t) for t in out])
+        E.ensure("two-axes", len(out) == 2)
+        E.ensure("auto-axis-sums-to-its-length", AND(sum(out[0]) == n0, *[c >= 0 for c in out[0]]))
+        E.ensure("empty-axis-is-(0,)", tuple(out[1]) == (0,))
+
+    def api(values):
+        from dask_array._core_utils import normalize_chunks
+
+        n0, lim = values["n0"], values["limit"]
+        try:
+            out = normalize_chunks(("auto", fixed), (n0, 0), limit=lim, dtype=np.dtype("f8"))
+        except ZeroDivisionError as ex:
+            return dict(ok=False, detail=f"normalize_chunks(('auto', {fixed!r}), ({n0}, 0), limit={lim}) raised ZeroDivisionError: {ex}")
+        return dict(ok=sum(out[0]) == n0 and tuple(out[1]) == (0,), detail=f"{out}")
+
+    return Instance(f"normalize_chunks[('auto',{fixed!r}) on an empty array]", body, dict(fixed=fixed), unit="normalize_chunks+auto_chunks",
+                    api_replay=api)
+
+
 def inst_auto_two(itemsize, nmax, limmax):
     def body(E):
         lim = E.int("limit", 1, limmax)
@@ -305,7 +332,7 @@ def inst_prev(itemsize, nmax, limmax, mprev):
 def instances(tier):
     q = tier == "quick"
     out = [inst_ints(k) for k in ("scalar", "tuple", "dict", "neg1", "none", "mixed")]
-    out += [inst_explicit(1, 1), inst_explicit(2, 1), inst_explicit(2, 3), inst_explicit_fractional()]
+    out += [inst_explicit(1, 1), inst_explicit(2, 1), inst_explicit(2, 3), inst_explicit_fractional(), inst_auto_empty(-1), inst_auto_empty((0,))]
     for cfix in (1, 2, 3) if not q else (1, 3):
         for itemsize in (1, 8):
             out.append(inst_auto_one(cfix, itemsize, "limit"))
